@@ -15,6 +15,14 @@
 //   segment of the system id); default entity resolution is always disabled and the net accessor is removed,
 //   so no file or network access happens.
 //
+// Reused parser ("SEQ" lines): ONE parser object is fed a sequence of documents, with an action on the result of each
+//   SEQ <api>:<scanner> <act>:<val>:<flags hex>:<limit> <hex main> [| name=hex ...] ## <act>:<val>:... ## ...
+//     act  n  nothing (the document stays with the parser)          p  resetDocumentPool() after this parse (DOM/LS)
+//          a  adoptDocument() and release it at once (DOM/LS)        l  adoptDocument(), release after the last step (DOM/LS)
+//          g<k> progressive parse abandoned: parseFirst, at most k parseNext, parseReset (SAX/SAX2/DOM; plain parse for LS)
+//     every step sets all features anew on the same object (so validation scheme, namespaces, entity-reference nodes …
+//     flip between documents); the observation is the list of per-step observations joined by "; ".
+//
 // Observation:  ok | fatal <n> | exc <documented type> | FOREIGN-EXCEPTION <type>   [+ " LEAK <n>" when the same
 // case twice leaves memory-manager allocations behind after the parser is destroyed]
 // A watchdog on *user CPU time* (budget linear in the input size) prints WATCHDOG-TIMEOUT to stderr and _exit(97)s.
@@ -324,6 +332,214 @@ static std::string runOnce(const Case& c) {
     return "ok";
 }
 
+// ---------------------------------------------------------------- reused parser: one object, several documents
+static void cfgSax(SAXParser& p, const Case& c, SecurityManager& sm) {
+    p.setValidationScheme(c.val == "never" ? SAXParser::Val_Never : c.val == "auto" ? SAXParser::Val_Auto : SAXParser::Val_Always);
+    p.setDoNamespaces(bit(c, 0)); p.setDoSchema(bit(c, 1)); p.setValidationSchemaFullChecking(bit(c, 2));
+    p.setExitOnFirstFatalError(!bit(c, 3)); p.setLoadExternalDTD(bit(c, 4)); p.setIdentityConstraintChecking(bit(c, 6));
+    p.setSkipDTDValidation(bit(c, 9)); p.setSecurityManager(bit(c, 10) ? &sm : 0);
+    p.setCalculateSrcOfs(bit(c, 11)); p.setStandardUriConformant(bit(c, 12)); p.setValidateAnnotations(bit(c, 13));
+    p.setGenerateSyntheticAnnotations(bit(c, 14)); p.cacheGrammarFromParse(bit(c, 15)); p.useCachedGrammarInParse(bit(c, 15));
+    p.setHandleMultipleImports(bit(c, 17));
+    p.setDisableDefaultEntityResolution(true);
+}
+static void cfgSax2(SAX2XMLReader* p, const Case& c, SecurityManager& sm) {
+    p->setFeature(XMLUni::fgSAX2CoreValidation, c.val != "never"); p->setFeature(XMLUni::fgXercesDynamic, c.val == "auto");
+    p->setFeature(XMLUni::fgSAX2CoreNameSpaces, bit(c, 0)); p->setFeature(XMLUni::fgSAX2CoreNameSpacePrefixes, bit(c, 11));
+    p->setFeature(XMLUni::fgXercesSchema, bit(c, 1)); p->setFeature(XMLUni::fgXercesSchemaFullChecking, bit(c, 2));
+    p->setFeature(XMLUni::fgXercesContinueAfterFatalError, bit(c, 3)); p->setFeature(XMLUni::fgXercesLoadExternalDTD, bit(c, 4));
+    p->setFeature(XMLUni::fgXercesIdentityConstraintChecking, bit(c, 6)); p->setFeature(XMLUni::fgXercesSkipDTDValidation, bit(c, 9));
+    p->setProperty(XMLUni::fgXercesSecurityManager, bit(c, 10) ? &sm : 0);
+    p->setFeature(XMLUni::fgXercesCalculateSrcOfs, bit(c, 11)); p->setFeature(XMLUni::fgXercesStandardUriConformant, bit(c, 12));
+    p->setFeature(XMLUni::fgXercesValidateAnnotations, bit(c, 13)); p->setFeature(XMLUni::fgXercesGenerateSyntheticAnnotations, bit(c, 14));
+    p->setFeature(XMLUni::fgXercesCacheGrammarFromParse, bit(c, 15)); p->setFeature(XMLUni::fgXercesUseCachedGrammarInParse, bit(c, 15));
+    p->setFeature(XMLUni::fgXercesHandleMultipleImports, bit(c, 17));
+    p->setFeature(XMLUni::fgXercesDisableDefaultEntityResolution, true);
+}
+static void cfgDom(XercesDOMParser& p, const Case& c, SecurityManager& sm) {
+    p.setValidationScheme(c.val == "never" ? XercesDOMParser::Val_Never : c.val == "auto" ? XercesDOMParser::Val_Auto : XercesDOMParser::Val_Always);
+    p.setDoNamespaces(bit(c, 0)); p.setDoSchema(bit(c, 1)); p.setValidationSchemaFullChecking(bit(c, 2));
+    p.setExitOnFirstFatalError(!bit(c, 3)); p.setLoadExternalDTD(bit(c, 4)); p.setIdentityConstraintChecking(bit(c, 6));
+    p.setCreateEntityReferenceNodes(bit(c, 7)); p.setDoXInclude(bit(c, 8));
+    p.setSkipDTDValidation(bit(c, 9)); p.setSecurityManager(bit(c, 10) ? &sm : 0);
+    p.setCalculateSrcOfs(bit(c, 11)); p.setStandardUriConformant(bit(c, 12)); p.setValidateAnnotations(bit(c, 13));
+    p.setGenerateSyntheticAnnotations(bit(c, 14)); p.cacheGrammarFromParse(bit(c, 15)); p.useCachedGrammarInParse(bit(c, 15));
+    p.setHandleMultipleImports(bit(c, 17)); p.setCreateSchemaInfo(bit(c, 13));
+    p.setDisableDefaultEntityResolution(true);
+}
+static void cfgLs(DOMConfiguration* cf, const Case& c, SecurityManager& sm, bool adopt) {
+    cf->setParameter(XMLUni::fgDOMValidate, c.val == "always"); cf->setParameter(XMLUni::fgDOMValidateIfSchema, c.val == "auto");
+    cf->setParameter(XMLUni::fgDOMNamespaces, bit(c, 0)); cf->setParameter(XMLUni::fgXercesSchema, bit(c, 1));
+    cf->setParameter(XMLUni::fgXercesSchemaFullChecking, bit(c, 2)); cf->setParameter(XMLUni::fgXercesContinueAfterFatalError, bit(c, 3));
+    cf->setParameter(XMLUni::fgXercesLoadExternalDTD, bit(c, 4)); cf->setParameter(XMLUni::fgXercesIdentityConstraintChecking, bit(c, 6));
+    cf->setParameter(XMLUni::fgDOMEntities, bit(c, 7)); cf->setParameter(XMLUni::fgXercesDoXInclude, bit(c, 8));
+    cf->setParameter(XMLUni::fgXercesSkipDTDValidation, bit(c, 9)); cf->setParameter(XMLUni::fgXercesSecurityManager, bit(c, 10) ? (void*)&sm : (void*)0);
+    cf->setParameter(XMLUni::fgXercesCalculateSrcOfs, bit(c, 11)); cf->setParameter(XMLUni::fgXercesStandardUriConformant, bit(c, 12));
+    cf->setParameter(XMLUni::fgXercesValidateAnnotations, bit(c, 13)); cf->setParameter(XMLUni::fgXercesGenerateSyntheticAnnotations, bit(c, 14));
+    cf->setParameter(XMLUni::fgXercesCacheGrammarFromParse, bit(c, 15)); cf->setParameter(XMLUni::fgXercesUseCachedGrammarInParse, bit(c, 15));
+    cf->setParameter(XMLUni::fgXercesHandleMultipleImports, bit(c, 17));
+    cf->setParameter(XMLUni::fgXercesDisableDefaultEntityResolution, true);
+    cf->setParameter(XMLUni::fgXercesUserAdoptsDOMDocument, adopt);
+}
+
+struct Step { char act = 'n'; long k = 0; Case c; };
+struct Seq { std::string api, scanner; std::vector<Step> steps; bool bad = false; size_t total = 0, refs = 0; };
+
+static Seq parseSeq(const std::string& line) {
+    Seq q; size_t sp = line.find(' ', 4);
+    if (line.compare(0, 4, "SEQ ") != 0 || sp == std::string::npos) { q.bad = true; return q; }
+    std::vector<std::string> hd = hx::split(line.substr(4, sp - 4), ':');
+    if (hd.size() != 2) { q.bad = true; return q; }
+    q.api = hd[0]; q.scanner = hd[1];
+    std::string rest = line.substr(sp + 1);
+    size_t pos = 0;
+    while (pos <= rest.size()) {
+        size_t e = rest.find(" ## ", pos);
+        std::string st = rest.substr(pos, e == std::string::npos ? std::string::npos : e - pos);
+        size_t colon = st.find(':');
+        if (colon == std::string::npos || colon == 0) { q.bad = true; break; }
+        Step s; s.act = st[0]; s.k = colon > 1 ? strtol(st.substr(1, colon - 1).c_str(), 0, 10) : 0;
+        if (!strchr("npalg", s.act)) { q.bad = true; break; }
+        s.c = parseCase(q.api + ":" + q.scanner + ":" + st.substr(colon + 1));
+        if (s.c.bad) { q.bad = true; break; }
+        q.total += s.c.doc.size(); for (XMLByte b : s.c.doc) if (b == '&' || b == '%') ++q.refs;
+        for (auto& kv : s.c.res) { q.total += kv.second.size(); for (XMLByte b : kv.second) if (b == '&' || b == '%') ++q.refs; }
+        q.steps.push_back(s);
+        if (e == std::string::npos) break;
+        pos = e + 4;
+    }
+    if (q.steps.empty()) q.bad = true;
+    return q;
+}
+
+template <class F> static std::string guarded(Counts& n, const Counts& before, F body) {
+    std::string exc;
+    try {
+        try { body(); }
+        catch (const OutOfMemoryException&) { exc = "exc OutOfMemoryException"; }
+        catch (const XMLException& e) { exc = "exc XMLException:" + hx::narrow(e.getType()); }
+        catch (const DOMLSException& e) { exc = "exc DOMLSException:" + std::to_string((int)e.code); }
+        catch (const DOMException& e) { exc = "exc DOMException:" + std::to_string((int)e.code); }
+        catch (const SAXParseException&) { exc = "exc SAXParseException"; }
+        catch (const SAXException&) { exc = "exc SAXException"; }
+        catch (const std::exception& e) { exc = "FOREIGN-EXCEPTION " + demangled(typeid(e).name()); }
+    }
+    catch (...) {
+        std::type_info* t = abi::__cxa_current_exception_type();
+        exc = "FOREIGN-EXCEPTION " + (t ? demangled(t->name()) : std::string("unknown"));
+    }
+    if (!exc.empty()) return exc;
+    if (n.fatal != before.fatal) return "fatal " + std::to_string(n.fatal - before.fatal);
+    return "ok";
+}
+
+static std::string runSeq(const Seq& q) {
+    std::string out;
+    Resolver res; SecurityManager sm;
+    static const XMLByte none[1] = {0};
+    std::vector<DOMDocument*> later;                       // adopted documents released after the last step
+    auto add = [&out](const std::string& o) { out += (out.empty() ? "" : "; ") + o; };
+    if (q.api == "sax") {
+        SAXParser p; SaxErr eh; SaxDoc dh;
+        p.setErrorHandler(&eh); p.setDocumentHandler(&dh); p.setDTDHandler(&dh); p.setXMLEntityResolver(&res);
+        p.useScanner(scannerName(q.scanner));
+        for (const Step& s : q.steps) {
+            const Case& c = s.c; res.c = &c; Counts b4 = eh.n;
+            add(guarded(eh.n, b4, [&] {
+                if (bit(c, 10)) sm.setEntityExpansionLimit(c.limit);
+                cfgSax(p, c, sm);
+                MemBufInputSource src(c.doc.empty() ? none : c.doc.data(), c.doc.size(), SYSID, false);
+                if (s.act == 'g') {
+                    XMLPScanToken tok;
+                    struct R { SAXParser& p; XMLPScanToken& t; ~R() { try { p.parseReset(t); } catch (...) {} } } r = {p, tok};
+                    if (p.parseFirst(src, tok)) for (long k = 0; k < s.k && p.parseNext(tok); k++) {}
+                } else p.parse(src);
+            }));
+        }
+    } else if (q.api == "sax2") {
+        SAX2XMLReader* p = XMLReaderFactory::createXMLReader();
+        struct Del { SAX2XMLReader* p; ~Del() { delete p; } } del = {p};
+        SaxErr eh; Sax2Doc dh;
+        p->setProperty(XMLUni::fgXercesScannerName, (void*)scannerName(q.scanner));
+        p->setErrorHandler(&eh); p->setContentHandler(&dh); p->setLexicalHandler(&dh); p->setDTDHandler(&dh); p->setEntityResolver((EntityResolver*)&res);
+        for (const Step& s : q.steps) {
+            const Case& c = s.c; res.c = &c; Counts b4 = eh.n;
+            add(guarded(eh.n, b4, [&] {
+                if (bit(c, 10)) sm.setEntityExpansionLimit(c.limit);
+                cfgSax2(p, c, sm);
+                MemBufInputSource src(c.doc.empty() ? none : c.doc.data(), c.doc.size(), SYSID, false);
+                if (s.act == 'g') {
+                    XMLPScanToken tok;
+                    struct R { SAX2XMLReader* p; XMLPScanToken& t; ~R() { try { p->parseReset(t); } catch (...) {} } } r = {p, tok};
+                    if (p->parseFirst(src, tok)) for (long k = 0; k < s.k && p->parseNext(tok); k++) {}
+                } else p->parse(src);
+            }));
+        }
+    } else if (q.api == "dom") {
+        {
+            XercesDOMParser p; SaxErr eh;
+            p.setErrorHandler(&eh); p.setXMLEntityResolver(&res);
+            p.useScanner(scannerName(q.scanner));
+            for (const Step& s : q.steps) {
+                const Case& c = s.c; res.c = &c; Counts b4 = eh.n;
+                add(guarded(eh.n, b4, [&] {
+                    if (bit(c, 10)) sm.setEntityExpansionLimit(c.limit);
+                    cfgDom(p, c, sm);
+                    MemBufInputSource src(c.doc.empty() ? none : c.doc.data(), c.doc.size(), SYSID, false);
+                    if (s.act == 'g') {
+                        XMLPScanToken tok;
+                        struct R { XercesDOMParser& p; XMLPScanToken& t; ~R() { try { p.parseReset(t); } catch (...) {} } } r = {p, tok};
+                        if (p.parseFirst(src, tok)) for (long k = 0; k < s.k && p.parseNext(tok); k++) {}
+                        if (bit(c, 19) && p.getDocument()) walk(p.getDocument());
+                    } else {
+                        struct After { XercesDOMParser& p; const Step& s; std::vector<DOMDocument*>& later; bool w;
+                            ~After() {                    // the action is applied whether or not the parse threw
+                                try {
+                                    if (w && p.getDocument()) walk(p.getDocument());
+                                    if (s.act == 'p') p.resetDocumentPool();
+                                    else if (s.act == 'a') { DOMDocument* d = p.adoptDocument(); if (d) d->release(); }
+                                    else if (s.act == 'l') { DOMDocument* d = p.adoptDocument(); if (d) later.push_back(d); }
+                                } catch (...) {}
+                            } } after = {p, s, later, bit(c, 19)};
+                        p.parse(src);
+                    }
+                }));
+            }
+            if (q.steps.size() % 2 == 0) { for (DOMDocument* d : later) { walk(d); d->release(); } later.clear(); }
+        }
+        for (DOMDocument* d : later) { walk(d); d->release(); }     // adopted documents outlive the parser
+    } else {
+        static const XMLCh ls[] = {chLatin_L, chLatin_S, chNull};
+        DOMImplementationLS* impl = (DOMImplementationLS*)DOMImplementationRegistry::getDOMImplementation(ls);
+        {
+            DOMLSParser* p = impl->createLSParser(DOMImplementationLS::MODE_SYNCHRONOUS, 0);
+            struct Rel { DOMLSParser* p; ~Rel() { p->release(); } } rel = {p};
+            DomErr eh; DOMConfiguration* cf = p->getDomConfig();
+            cf->setParameter(XMLUni::fgXercesScannerName, (void*)scannerName(q.scanner));
+            cf->setParameter(XMLUni::fgDOMErrorHandler, &eh); cf->setParameter(XMLUni::fgDOMResourceResolver, (DOMLSResourceResolver*)&res);
+            for (const Step& s : q.steps) {
+                const Case& c = s.c; res.c = &c; Counts b4 = eh.n;
+                add(guarded(eh.n, b4, [&] {
+                    if (bit(c, 10)) sm.setEntityExpansionLimit(c.limit);
+                    bool adopt = s.act == 'a' || s.act == 'l';
+                    cfgLs(cf, c, sm, adopt);
+                    MemBufInputSource* src = new MemBufInputSource(c.doc.empty() ? none : c.doc.data(), c.doc.size(), SYSID, false);
+                    Wrapper4InputSource in(src, true);
+                    DOMDocument* d = 0;
+                    struct After { DOMLSParser* p; const Step& s; ~After() { try { if (s.act == 'p') p->resetDocumentPool(); } catch (...) {} } } after = {p, s};
+                    d = p->parse(&in);
+                    if (bit(c, 19) && d) walk(d);
+                    if (d && s.act == 'a') d->release();
+                    else if (d && s.act == 'l') later.push_back(d);
+                }));
+            }
+            if (q.steps.size() % 2 == 0) { for (DOMDocument* d : later) { walk(d); d->release(); } later.clear(); }
+        }
+        for (DOMDocument* d : later) { walk(d); d->release(); }
+    }
+    return out;
+}
+
 int main() {
     CountingMM* mm = new CountingMM();
     XMLPlatformUtils::Initialize(XMLUni::fgXercescDefaultLocale, 0, 0, mm);
@@ -337,6 +553,22 @@ int main() {
     std::string line; size_t caseNo = 0;
     while (std::getline(std::cin, line)) {
         fprintf(stderr, "#C %zu\n", caseNo++); fflush(stderr);     // lets the checker attribute sanitizer text to a case
+        if (line.compare(0, 4, "SEQ ") == 0) {
+            Seq q = parseSeq(line);
+            if (q.bad) { std::cout << "bad-op" << std::endl; continue; }
+            arm(scale * (8.0 * q.steps.size() + (double)q.total / 3000.0 + 0.004 * (double)q.refs));
+            long before = gLive.load();
+            std::string out = runSeq(q);
+            if (gLive.load() != before) {
+                before = gLive.load();
+                runSeq(q);
+                long d2 = gLive.load() - before;
+                if (d2 != 0) out += " LEAK " + std::to_string(d2);
+            }
+            disarm();
+            std::cout << out << std::endl;
+            continue;
+        }
         Case c = parseCase(line);
         if (c.bad) { std::cout << "bad-op" << std::endl; continue; }
         size_t total = c.doc.size(), refs = 0;
